@@ -467,6 +467,12 @@ fn judge_live(run: &Run, c: &Case, su: &Setup) -> CaseResult {
         let _ = std::fs::write(su.dir.join("keep/inner.txt"), b"clobbered by selftest\n");
     }
 
+    // observation (not judged: force was requested and nothing is reported as signed): forced in-place signing
+    // under another spelling of the input path removes the input and then fails
+    if !c.force.is_empty() && c.mode == "sign" && !ok && std::fs::symlink_metadata(su.dir.join(&su.in_name)).is_err() {
+        run.count("observed:forced-same-file-other-spelling-deletes-input");
+    }
+
     // ---- 1. pre-existing entries ------------------------------------------------------------------------
     let after = snap(&su.dir);
     let forced = !c.force.is_empty();
@@ -619,7 +625,7 @@ fn gen_case(r: &mut SplitMix64, thorough: bool) -> Case {
         "cli/tests/fixtures/libpng-test.png",
         "cli/tests/fixtures/sample1.svg",
         "sdk/tests/fixtures/test.webp",
-        "sdk/tests/fixtures/tiff_poc.tiff",
+        "sdk/tests/fixtures/MultiPage.tif",
         "sdk/tests/fixtures/no_manifest.jpg",
         "cli/tests/fixtures/verify.jpeg",
     ];
